@@ -595,7 +595,9 @@ func (s *Server) inheritClientSession(pk packets.Packet, cl *Client) bool {
 		// Clean the state of the existing client to prevent sequential take-overs
 		// from increasing memory usage by inflights + subs * client-id.
 		s.UnsubscribeClient(existing)
-		existing.ClearInflights()
+		for _, tk := range existing.State.Inflight.GetAll(false) {
+			existing.State.Inflight.Delete(tk.PacketID) // the messages now belong to the inheriting session: release the old copies without reporting them dropped
+		}
 
 		s.Log.Debug("session taken over", "client", cl.ID, "old_remote", existing.Net.Remote, "new_remote", cl.Net.Remote)
 
